@@ -37,7 +37,7 @@ macro_rules! ck {
 
 #[derive(Default)]
 pub struct Ctx {
-    pub counts: BTreeMap<&'static str, u64>,
+    pub counts: Vec<(&'static str, u64)>,
     pub repr_classes: BTreeMap<String, u64>,
     pub repr_pairs: BTreeMap<String, u64>,
     pub ctor_families: BTreeMap<String, u64>,
@@ -70,6 +70,27 @@ pub struct Ctx {
 impl Ctx {
     #[inline]
     pub fn bump(&mut self, op: &'static str, n: u64) {
-        *self.counts.entry(op).or_insert(0) += n;
+        // the same literal is (almost always) the same pointer: a pointer scan first
+        for e in &mut self.counts {
+            if std::ptr::eq(e.0.as_ptr(), op.as_ptr()) && e.0.len() == op.len() {
+                e.1 += n;
+                return;
+            }
+        }
+        for e in &mut self.counts {
+            if e.0 == op {
+                e.1 += n;
+                return;
+            }
+        }
+        self.counts.push((op, n));
+    }
+
+    pub fn sorted_counts(&self) -> BTreeMap<&'static str, u64> {
+        let mut m = BTreeMap::new();
+        for (k, v) in &self.counts {
+            *m.entry(*k).or_insert(0) += *v;
+        }
+        m
     }
 }
